@@ -1,11 +1,11 @@
 SPECIFICATION FairSpec
 CONSTANTS
-  Callers = {"c1", "c2", "c3"}
-  Cancellers = {"k1", "k2"}
+  Callers = {"c1", "c2"}
+  Cancellers = {"k1", "p1"}
   Periodic = FALSE
   DeleteByName = FALSE
   ClaimIgnoresCancel = FALSE
-  PrefixCancellers = {}
+  PrefixCancellers = {"p1"}
   DropOnClaim = FALSE
   MaxRuns = 1
 INVARIANTS TypeOK AtMostOnce NoOverlap NoPanic NoLostRun NotDropped CancelBranchNoRun CancelOkNeverRuns NameReusable NameSlotUnique SuccessorReachable LockFreeAtEnd
